@@ -931,7 +931,7 @@ func (r *envelopingReader) prepareNext() error {
 			r.rw.reportError(err)
 			return err
 		}
-		r.current = io.LimitReader(r.r, int64(env.length))
+		r.current = &payloadReader{r: r.r, remaining: int64(env.length)}
 	}
 
 	if r.rw.op.serverEnveloper == nil {
@@ -941,6 +941,34 @@ func (r *envelopingReader) prepareNext() error {
 		r.env = r.rw.op.serverEnveloper.encodeEnvelope(env)
 	}
 	return nil
+}
+
+// payloadReader reads the payload of one enveloped message. Unlike an
+// io.LimitedReader, it does not mistake the end of the underlying stream for
+// the end of the message: a stream that stops short of the length promised
+// by the envelope is reported as io.ErrUnexpectedEOF.
+type payloadReader struct {
+	r         io.Reader
+	remaining int64
+}
+
+func (p *payloadReader) Read(data []byte) (int, error) {
+	if p.remaining <= 0 {
+		return 0, io.EOF
+	}
+	if int64(len(data)) > p.remaining {
+		data = data[:p.remaining]
+	}
+	n, err := p.r.Read(data)
+	p.remaining -= int64(n)
+	if errors.Is(err, io.EOF) {
+		if p.remaining > 0 {
+			err = io.ErrUnexpectedEOF
+		} else {
+			err = nil
+		}
+	}
+	return n, err
 }
 
 // transformingReader transforms the data from the original request
